@@ -254,6 +254,16 @@ def step (s : St) (line : String) : St × String :=
         | none => (s, "bad-op")
       | _, _ => (s, "bad-op")
     | "state" => (s, showState s)
+    | "gettxs" =>
+      -- Wallet.GetTransactions(from, to) on the running wallet: blocks in the order reported, transactions of a block
+      -- ascending by id, -1 = mempool height
+      match (kv rest "from").bind String.toInt?, (kv rest "to").bind String.toInt? with
+      | some a, some b =>
+        if !s.running || a < -1 || b < -1 then (s, "bad-op") else
+        let r := getTransactions s.w a b
+        let ms := r.mined.map fun (h, ids) => s!"{h}:{joinWith "+" (ids.map toString)}"
+        (s, s!"gettxs mined={joinWith "/" ms} unmined={joinWith "+" (r.unmined.map toString)}")
+      | _, _ => (s, "bad-op")
     | "hashes" =>
       match natOf rest "from", natOf rest "to" with
       | some a, some b => if !s.running then (s, "bad-op") else (s, s!"hashes={showHashes s.w a b}")
